@@ -328,8 +328,8 @@ func c18Replay(kind string, raw json.RawMessage) (bool, string) {
 
 func init() {
 	mon.Register(&mon.Prop{
-		ID:   "C18",
-		Rule: "exhaustive: every vertex sequence of length 0..5 on the 4x4 lattice (thorough: also length<=6 on 3x3 and <=5 on 5x5), each as given and with an explicit closing vertex, as closed ring and as open series, under a rotating affine re-encoding; random: rings with a single reflex vertex, duplicate runs and collinear runs, checked at every rotation of the start vertex and both closures. Non-trivial = distinct sequence with >=3 distinct cyclic vertices and non-zero area.",
+		ID:          "C18",
+		Rule:        "exhaustive: every vertex sequence of length 0..5 on the 4x4 lattice (thorough: also length<=6 on 3x3 and <=5 on 5x5), each as given and with an explicit closing vertex, as closed ring and as open series, under a rotating affine re-encoding; random: rings with a single reflex vertex, duplicate runs and collinear runs, checked at every rotation of the start vertex and both closures. Non-trivial = distinct sequence with >=3 distinct cyclic vertices and non-zero area.",
 		Assumptions: []string{"coordinates in the exact domain", "where consecutive duplicate vertices make 'turn' ambiguous the flag may follow either the raw-triple or the duplicates-collapsed reading (counted as convex_ambiguous_duplicates, not asserted strictly)"},
 		Exhaustive:  func(string) bool { return true },
 		Run:         c18Run,
